@@ -74,12 +74,18 @@ def mask_of(cfg: dict) -> np.ndarray:
     return np.broadcast_to(np.atleast_1d(np.asarray(m, dtype=bool)), (nv,)).copy()
 
 
+def _bcast_index(idx, j: int):
+    """Index maps follow the configuration's broadcasting convention: a scalar or size-one map applies to all."""
+    arr = np.atleast_1d(idx)
+    return arr[0] if arr.size == 1 else arr[j]
+
+
 def estimator_of(cfg: dict, kind: str, j: int) -> str:
     """'mean' or 'stddev' for objective/constraint j."""
     sect = cfg.get("objectives", {}) if kind == "o" else (cfg.get("nonlinear_constraints") or {})
     idx = sect.get("function_estimators")
     ests = cfg.get("function_estimators") or [{"method": "default/default"}]
-    e = 0 if idx is None else int(np.atleast_1d(idx)[j])
+    e = 0 if idx is None else int(_bcast_index(idx, j))
     method = ests[e].get("method", "default/default").lower().rpartition("/")[2]
     return "mean" if method in ("default", "mean") else method
 
@@ -90,7 +96,7 @@ def filter_of(cfg: dict, kind: str, j: int) -> int:
     idx = sect.get("realization_filters")
     if idx is None:
         return -1
-    f = int(np.atleast_1d(idx)[j])
+    f = int(_bcast_index(idx, j))
     if f < 0 or f >= len(cfg.get("realization_filters") or []):
         return -1
     return f
